@@ -2074,6 +2074,17 @@ async fn admission_replay() {
                         }
                     }
                 }
+                "update" => {
+                    // UpdatePeer: the neighbour's full desired state, as base_params describes it, with another hold time
+                    let peer = api::Peer {
+                        conf: Some(api::PeerConf { neighbor_address: adm_addr(t[1]).to_string(), peer_asn: 65002, ..Default::default() }),
+                        timers: Some(api::Timers { config: Some(api::TimersConfig { hold_time: 30, connect_retry: 3600, ..Default::default() }), ..Default::default() }),
+                        transport: Some(api::Transport { passive_mode: true, ..Default::default() }),
+                        ..Default::default()
+                    };
+                    let r = svc.update_peer(tonic::Request::new(api::UpdatePeerRequest { peer: Some(peer), do_soft_reset_in: false })).await;
+                    if r.is_ok() { "ok".into() } else { "err".into() }
+                }
                 "probe" => {
                     // what the remote end of connection <id> has seen so far: an OPEN, the end of the stream, or nothing
                     let id: usize = t[1].parse().unwrap();
@@ -2082,12 +2093,13 @@ async fn admission_replay() {
                         None => "norecord".into(),
                         Some(r) => {
                             let mut buf = [0u8; 64];
-                            match tokio::time::timeout(Duration::from_millis(400), r.read(&mut buf)).await {
+                            match tokio::time::timeout(Duration::from_millis(2000), r.read(&mut buf)).await {
                                 Err(_) => "silent".into(),
                                 Ok(Ok(0)) | Ok(Err(_)) => "closed".into(),
                                 Ok(Ok(n)) => {
-                                    if n >= 19 && buf[18] == 1 {
-                                        "open".into()
+                                    if n >= 24 && buf[18] == 1 {
+                                        // an OPEN; the hold time it offers
+                                        format!("open:{}", u16::from_be_bytes([buf[22], buf[23]]))
                                     } else {
                                         format!("bytes{n}")
                                     }
